@@ -213,7 +213,7 @@ def run_plan(p):
         return fn
 
     fns = [mk(i, op) for i, op in enumerate(p["calls"])]
-    sched = simsched.Scheduler(prefix, fns, p["plan"], record=bool(p.get("record")), opcode=bool(p.get("opcode")), stall_s=20.0)
+    sched = simsched.Scheduler(prefix, fns, p["plan"], record=bool(p.get("record")), opcode=bool(p.get("opcode")), stall_s=20.0, raw=bool(p.get("raw")))
     status = "ok"
     try:
         sched.run()
@@ -271,7 +271,9 @@ def explore_pairs(farm, rep, jobs, stats, seed):
                 if "slot" in c:
                     c["slot"] = 20 + ci  # two calls never share a live parser instance
         job["calls"] = calls
-        job["base"] = {"calls": calls, "warm": job["warm"], "zone": "UTC"}
+        # a third of the pairs run on threads the threading module does not know about (started with
+        # _thread.start_new_thread, as embedding servers do): threading.active_count() stays 1
+        job["base"] = {"calls": calls, "warm": job["warm"], "zone": "UTC", "raw": j % 3 == 2}
         ph1 += [("checks.c20_sched:run_seq", dict(job["base"], order=[0, 1])), ("checks.c20_sched:run_seq", dict(job["base"], order=[1, 0])), ("checks.c20_sched:run_plan", dict(job["base"], plan=[[0, INF]], record=True))]
         idx += [(j, "ab"), (j, "ba"), (j, "trace")]
     res1 = farm.map("checks.c20_sched:dispatch", [{"fn": f, "p": p} for f, p in ph1], timeout=600)
@@ -360,7 +362,7 @@ def explore_pairs(farm, rep, jobs, stats, seed):
             continue
         # one violation per function in which the switch can land, so that a known-finding list of functions is exact
         for fn in sorted(funcs):
-            rep.violation(dict(sig, site_func=fn), {"run": "%s-%s-%s-k%d" % (an, bn, "warm" if job["warm"] else "cold", k), "seed": seed, "calls": job["calls"], "names": [an, bn], "warm": job["warm"], "plan": plan, "observed": val["outs"], "sequential": job["seqs"], "switch_site": site},
+            rep.violation(dict(sig, site_func=fn), {"run": "%s-%s-%s-k%d" % (an, bn, "warm" if job["warm"] else "cold", k), "seed": seed, "calls": job["calls"], "names": [an, bn], "warm": job["warm"], "raw": job["base"]["raw"], "plan": plan, "observed": val["outs"], "sequential": job["seqs"], "switch_site": site},
                           "%s pre-empted at step %d/%d (%s:%d in %s), %s run to completion, then resumed: got %s; sequential orders give %s" % (an, k, len(job["evA"]), site[1], site[2], site[3], bn, json.dumps(val["outs"])[:300], json.dumps(job["seqs"])[:300]))
 
 
@@ -425,7 +427,7 @@ def explore_seeded(farm, rep, pairs, tier, seed, stats, n):
         for _ in range(nsw):
             plan.append([rng.randrange(nthreads), rng.choice([1, 2, 5, 20, 50, 100, 200, 400, 800, 1500, rng.randrange(1, 2500)])])
         warm = rng.random() < 0.5
-        payloads.append({"calls": calls, "warm": warm, "zone": "UTC", "plan": plan, "opcode": False})  # opcode-level tracing (f_trace_opcodes) segfaults CPython 3.12.1 when tracing is switched off mid-run: line granularity only
+        payloads.append({"calls": calls, "warm": warm, "zone": "UTC", "plan": plan, "opcode": False, "raw": i % 3 == 2})  # opcode-level tracing (f_trace_opcodes) segfaults CPython 3.12.1 when tracing is switched off mid-run: line granularity only
         meta.append((chosen, warm))
     results = farm.map("checks.c20_sched:run_plan", payloads, timeout=300)
     # sequential references: all permutations of the calls
@@ -461,13 +463,13 @@ def explore_seeded(farm, rep, pairs, tier, seed, stats, n):
             continue
         if val["status"] != "ok":
             sig = {"stratum": "seeded-multi", "kind": val["status"].split(":")[0]}
-            rep.violation(sig, {"run": "multi-%s" % "-".join(chosen), "calls": pl["calls"], "names": chosen, "warm": warm, "plan": pl["plan"], "observed": val["outs"], "sequential": seqs}, "seeded schedule %s plan %s: %s" % (chosen, pl["plan"], val["status"]))
+            rep.violation(sig, {"run": "multi-%s" % "-".join(chosen), "calls": pl["calls"], "names": chosen, "warm": warm, "raw": pl["raw"], "plan": pl["plan"], "observed": val["outs"], "sequential": seqs}, "seeded schedule %s plan %s: %s" % (chosen, pl["plan"], val["status"]))
             continue
         if seqs and not judge(val["outs"], seqs):
             wrong, kinds = mismatch(val["outs"], seqs, chosen)
             sig = {"stratum": "seeded-multi", "calls": sorted(chosen), "mismatch": kinds}
             stats["violating_schedules"] += 1
-            rep.violation(sig, {"run": "multi-%s-%s" % ("-".join(chosen), seeds.digest(pl["plan"])), "calls": pl["calls"], "names": chosen, "warm": warm, "plan": pl["plan"], "opcode": pl["opcode"], "observed": val["outs"], "sequential": seqs, "executed": val["log"]},
+            rep.violation(sig, {"run": "multi-%s-%s" % ("-".join(chosen), seeds.digest(pl["plan"])), "calls": pl["calls"], "names": chosen, "warm": warm, "raw": pl["raw"], "plan": pl["plan"], "opcode": pl["opcode"], "observed": val["outs"], "sequential": seqs, "executed": val["log"]},
                           "seeded schedule of %s (warm=%s) plan %s executed as %s: got %s, no sequential order gives that" % (chosen, warm, pl["plan"], val["log"], val["outs"]))
 
 
@@ -570,7 +572,7 @@ def replay(args, rep):
         perms = list(itertools.permutations(range(len(rp["calls"]))))
         rs = farm.map("checks.c20_sched:run_seq", [dict(base, order=list(o)) for o in perms], timeout=300)
         seqs = [v["outs"] for s, v in rs if s == "ok"]
-        st, val = farm.call("checks.c20_sched:run_plan", dict(base, plan=rp["plan"], opcode=rp.get("opcode", False)), 300)
+        st, val = farm.call("checks.c20_sched:run_plan", dict(base, plan=rp["plan"], opcode=rp.get("opcode", False), raw=rp.get("raw", False)), 300)
     if st != "ok" or not seqs:
         print("HARNESS replay leaf failed: %s" % (val,))
         return 2
